@@ -133,6 +133,43 @@ def first_declaration_wins(ctx, fi):
            % bad, nontrivial=bool(bad))
 
 
+def by_name_method_for_its_interface(ctx, rule):
+    """executeMethod finds `dbus_<member>` by name first.  When that function
+    was decorated for an interface (`_dbusInterface`), it answers calls of
+    THAT interface only: on every path that runs it and knows it is decorated,
+    the decoration was compared equal to the interface called."""
+    prog = ctx.prog
+    fi = prog.func('objects.DBusObject.executeMethod')
+    n = 0
+    for p in Interp(prog, exc_edges=False).run(fi):
+        if p.outcome != 'return' or kind(p.value) != 'call':
+            continue
+        g = p.value[2]
+        if not (kind(g) == 'call' and g[1] == 'getattr'):
+            continue            # the decorated lookup was used
+        deco = ('attr', g, '_dbusInterface')
+        knows = any(kind(c) == 'call' and c[1] == 'hasattr' and pol and
+                    c[3] and c[3][0] == g and
+                    c[3][1:] == (C('_dbusInterface'),)
+                    for c, pol in p.cond)
+        if not knows:
+            continue
+        n += 1
+        same = any(kind(c) == 'cmp' and deco in (c[2], c[3]) and
+                   ((c[1] == '!=' and not pol) or (c[1] == '==' and pol))
+                   for c, pol in p.cond)
+        ctx.ob(rule, fi.qualname, 'by-name-method-for-its-interface', same,
+               'a method found as dbus_<member> that is decorated for an '
+               'interface is run although its interface was not found equal '
+               'to the one called [%s]: a member of the same name on another '
+               'interface runs the wrong implementation' % '; '.join(
+                   '%s is %s' % (term_str(c)[-40:], pol)
+                   for c, pol in p.cond[:3]))
+    if n == 0:
+        raise AnalysisError('executeMethod: no path runs a decorated method '
+                            'found by name (anchor changed)')
+
+
 def run(ctx):
     prog = ctx.prog
     fi = prog.func(Q)
@@ -427,6 +464,7 @@ def run(ctx):
     sub = _Sub(ctx, 'C10.D5')
     c03.reader_rules(sub, None)
     first_declaration_wins(ctx, fi)
+    by_name_method_for_its_interface(ctx, 'C10.D6')
     from .common import class_memo_not_inherited
     class_memo_not_inherited(
         ctx, 'C10.D6', ('objects',),
